@@ -615,6 +615,7 @@ template <class Mesh> struct HistRun {
     void op_collapse(R &r, const Op &q);
     void resync(R &r, int ri);
     bool resynced = false;
+    bool keep_alive = false;
     void op_restart(R &r, const Op &q);
     void op_roundtrip(R &r, const Op &q);
     void op_fault_load(R &r, const Op &q);
